@@ -216,45 +216,95 @@ def store_level(chk, rng, tier):
                 chk.violation("keys-differs", "KEYS %r returned %s, the glob relation selects %s" % (p, got_keys, want), dict(case=c["line"], pattern=repr(p), pattern_hex=hx(p), got=repr(got_keys), expected=repr(want)))
             elif got_scan != want:
                 chk.violation("scan-differs", "SCAN 0 MATCH %r returned %s, KEYS and the glob relation select %s" % (p, got_scan, want), dict(case=c["line"], pattern=repr(p), pattern_hex=hx(p), got=repr(got_scan), expected=repr(want)))
-    # a SCAN that continues from a non-zero cursor with ANOTHER pattern on the same connection: the pattern of THIS call decides
-    def scan_oracle(cursor, pat, count):
-        out = []
-        for i, k in enumerate(sorted(keys)):
-            if 0 < cursor and i <= cursor:
-                continue
-            if direct_glob(pat, k):
-                out.append(k)
-                if count <= len(out):
-                    break
-        return sorted(out)
-    cont = []
+    # SCAN the way a client uses it: SCAN 0, then SCAN <returned cursor> until the cursor comes back as 0.  For every
+    # pattern and COUNT the iteration must end, and the keys collected are exactly the keys KEYS selects, each once
+    # (theorem StoreScan.scan_iteration_agrees_with_keys on the store model; here the example server is run beside the
+    # store model on the same requests, and the collected keys are compared with the directly written glob relation).
+    # The requests are fixed in advance, so the cursors sent are the ones a correct server returns (number of sorted keys
+    # visited so far); a server that returns another cursor, or the wrong keys, differs from the model on that reply.
+    skeys = sorted(keys)
+    def walk(pat, count):
+        """[(cursor sent, keys expected, cursor expected back)] of the complete iteration"""
+        out, cur = [], 0
+        while True:
+            got, nxt = [], 0
+            for i in range(cur, len(skeys)):
+                if direct_glob(pat, skeys[i]):
+                    got.append(skeys[i])
+                    if max(count, 1) <= len(got):
+                        nxt = i + 1
+                        break
+            if nxt >= len(skeys):
+                nxt = 0
+            out.append((cur, got, nxt))
+            if nxt == 0:
+                return out
+            cur = nxt
+    its = []
+    ipats = [b"*", b"a*", b"?", b"user:*", b"a.c", b"nomatch*", b"*b", b"??", b""] + [rng.choice(pats) for _ in range(6 if tier == "quick" else 120)]
+    for pat in ipats:
+        for count in (1, 2, 3, 5, 10, len(keys) - 1, len(keys), len(keys) + 1):
+            w = walk(pat, count)
+            reqs = setup + [("SCAN", [str(cur).encode(), b"MATCH", pat, b"COUNT", str(count).encode()]) for (cur, _, _) in w] + [("KEYS", [pat])]
+            data = b"".join(G.request_bytes(n_, a_) for n_, a_ in reqs)
+            its.append(dict(reqs=reqs, pat=pat, count=count, walk=w, line=L.mkcase([(0, "f" + L.hx(data)), (0, "e")], handler="example", trace=False)))
+    # second pattern from a non-zero cursor on the same connection: the pattern of THIS call decides
     pairs = [(b"a*", b"b*"), (b"user:*", b"a?"), (b"*", b"a.c"), (b"a*", b"*"), (b"?", b"user:1*"), (b"nomatch*", b"a*")]
     pairs += [(rng.choice(pats), rng.choice(pats)) for _ in range(10 if tier == "quick" else 200)]
     for p1, p2 in pairs:
         for cur in (1, 3, 7):
-            reqs = setup + [("SCAN", [b"0", b"MATCH", p1, b"COUNT", b"2"]), ("SCAN", [str(cur).encode(), b"MATCH", p2, b"COUNT", b"100000"]), ("SCAN", [b"0", b"MATCH", p2, b"COUNT", b"100000"])]
-            data = b"".join(G.request_bytes(n_, a) for n_, a in reqs)
-            cont.append(dict(reqs=reqs, p1=p1, p2=p2, cur=cur, line=L.mkcase([(0, "f" + L.hx(data)), (0, "e")], handler="example", trace=False)))
-    rc, o, _ = vlib.run_harness(["conn"], "\n".join(c["line"] for c in cont) + "\n", timeout=600)
-    outs = [l.split(" ", 1)[1] for l in o.splitlines() if " " in l and l.split(" ", 1)[0].isdigit()]
-    if rc != 0 or len(outs) != len(cont):
-        chk.violation("harness-failure", "SCAN continuation run failed rc=%d: %s" % (rc, o[-300:]), dict(stage="store"), True)
-        return n
-    for c, a in zip(cont, outs):
-        reps = S.replies_of(L.Obs(a))
-        if len(reps) != len(c["reqs"]):
-            chk.violation("store-replies", "expected %d replies, got %d (SCAN continuation)" % (len(c["reqs"]), len(reps)), dict(case=c["line"]))
+            tail = [k for k in skeys[cur:] if direct_glob(p2, k)]
+            reqs = setup + [("SCAN", [b"0", b"MATCH", p1, b"COUNT", b"2"]), ("SCAN", [str(cur).encode(), b"MATCH", p2, b"COUNT", b"100000"]), ("KEYS", [p2])]
+            data = b"".join(G.request_bytes(n_, a_) for n_, a_ in reqs)
+            its.append(dict(reqs=reqs, pat=p2, count=100000, walk=[(0, None, None), (cur, tail, 0)], first=p1, line=L.mkcase([(0, "f" + L.hx(data)), (0, "e")], handler="example", trace=False)))
+    impl, model, fails = vlib.run_pair("conn", [], [c["line"] for c in its], shards=8, timeout=900)
+    for which, lo, hi, rc, tail in fails:
+        chk.violation("%s-run-failure" % which, "SCAN iteration: the %s run over cases %d..%d ended with status %d: %s" % (which, lo, hi, rc, tail[-300:]), dict(stage="store", case=its[lo]["line"]), True)
+    def scan_parts(rep):
+        if rep[0] == "*" and len(rep[1]) == 2 and rep[1][0][0] == "$" and rep[1][1][0] == "*":
+            try:
+                return int(rep[1][0][1]), [x[1] for x in rep[1][1][1]]
+            except ValueError:
+                return None
+        return None
+    n_it = 0
+    for c, a, mo in zip(its, impl, model):
+        if a is None or mo is None:
             continue
-        for idx, (cursor, pat) in ((len(reps) - 2, (c["cur"], c["p2"])), (len(reps) - 1, (0, c["p2"]))):
-            sr = reps[idx]
-            got = sorted(x[1] for x in sr[1][1][1]) if sr[0] == "*" and len(sr[1]) == 2 and sr[1][1][0] == "*" else None
-            want = scan_oracle(cursor, pat, 100000)
-            if got != want:
-                chk.violation("scan-continuation", "SCAN 0 MATCH %r COUNT 2 ; SCAN %d MATCH %r: the second call returned %s, its own pattern selects %s" % (c["p1"], cursor, pat, got, want),
-                              dict(case=c["line"], first_pattern=repr(c["p1"]), pattern=repr(pat), pattern_hex=hx(pat), cursor=cursor, got=repr(got), expected=repr(want)))
+        ri, rm = S.replies_of(L.Obs(a)), S.replies_of(L.Obs(mo))
+        if len(ri) != len(c["reqs"]):
+            chk.violation("store-replies", "expected %d replies, got %d (SCAN iteration, MATCH %r COUNT %d)" % (len(c["reqs"]), len(ri), c["pat"], c["count"]), dict(case=c["line"]))
+            continue
+        bad = None
+        collected = []
+        for j, (cur, want, nxt) in enumerate(c["walk"]):
+            if want is None:
+                continue
+            parts = scan_parts(ri[1 + j])
+            if parts is None:
+                bad = "SCAN %d MATCH %r COUNT %d was answered %r" % (cur, c["pat"], c["count"], ri[1 + j])
                 break
+            collected += parts[1]
+            if parts[1] != want or parts[0] != nxt:
+                what = ("the iteration is reported complete (cursor 0) after %d of %d matching keys" % (len(collected), sum(len(w_[1]) for w_ in c["walk"] if w_[1] is not None))) if parts[0] == 0 and nxt != 0 else \
+                       ("the cursor does not come back to 0 when every key was visited (a client's loop does not end)" if nxt == 0 and parts[0] != 0 else "keys / cursor differ")
+                bad = "SCAN %d MATCH %r COUNT %d returned cursor %d keys %s, expected cursor %d keys %s: %s" % (cur, c["pat"], c["count"], parts[0], parts[1], nxt, want, what)
+                break
+        if bad is None and "first" not in c:
+            kr = ri[-1]
+            got_keys = sorted(x[1] for x in kr[1]) if kr[0] == "*" else None
+            if got_keys != sorted(collected) or len(set(collected)) != len(collected):
+                bad = "the SCAN iteration with MATCH %r COUNT %d collected %s, KEYS returns %s" % (c["pat"], c["count"], collected, got_keys)
+        if bad is None and [S.canon(q[0], t) for q, t in zip(c["reqs"], ri)] != [S.canon(q[0], t) for q, t in zip(c["reqs"], rm)]:
+            k = next(i for i, (x, y) in enumerate(zip(ri, rm)) if S.canon(c["reqs"][i][0], x) != S.canon(c["reqs"][i][0], y)) if len(ri) == len(rm) else -1
+            bad = "correspondence (Store.sprim vs example server): reply %d differs: impl %r model %r" % (k, ri[k] if k >= 0 else len(ri), rm[k] if k >= 0 else len(rm))
+        if bad:
+            chk.violation("scan-iteration", bad, dict(case=c["line"], pattern=repr(c["pat"]), pattern_hex=hx(c["pat"]), count=c["count"],
+                          requests=[" ".join([q[0]] + [x.decode("latin1") for x in q[1]]) for q in c["reqs"][1:]]))
         else:
-            n += 1
+            n_it += 1
+    chk.coverage["scan_iterations"] = n_it
+    n += n_it
     chk.coverage["store_level_patterns"] = n
     return n
 
